@@ -30,21 +30,23 @@ def mkEnv (m : ModuleM) : Option Env :=
   if m.funcs.length ≠ m.code.length then none else
   ((imps ++ locs).mapM id).map fun fs => ⟨m.sigs, List.range fs.length, fs⟩
 
+/-- one operator of a constant expression -/
+def constStep (res : Nat → Option Nat) (globals : List V) (stk : Option (List V)) (o : Op) : Option (List V) :=
+  match stk with
+  | none => none
+  | some stk =>
+    if o.name = "End" then some stk
+    else if o.name = "GlobalGet" then
+      (match o.args with | [.ref _ g] => (globals[g]?).map (· :: stk) | _ => none)
+    else if o.name = "RefFunc" then
+      (match o.args with | [.ref _ f] => (res f).map fun u => .fref (some u) :: stk | _ => none)
+    else match pureOp o stk with
+      | some (.ok s) => some s
+      | _ => none
+
 /-- constant expressions: constants, `global.get`, `ref.func`, `ref.null`, integer arithmetic -/
-def evalConst (FT : List Nat) (globals : List V) (c : CExprM) : Option V :=
-  let step := fun (stk : Option (List V)) (o : Op) =>
-    match stk with
-    | none => none
-    | some stk =>
-      if o.name = "End" then some stk
-      else if o.name = "GlobalGet" then
-        (match o.args with | [.ref _ g] => (globals[g]?).map (· :: stk) | _ => none)
-      else if o.name = "RefFunc" then
-        (match o.args with | [.ref _ f] => (FT[f]?).map fun u => .fref (some u) :: stk | _ => none)
-      else match pureOp o stk with
-        | some (.ok s) => some s
-        | _ => none
-  match c.foldl step (some []) with
+def evalConst (res : Nat → Option Nat) (globals : List V) (c : CExprM) : Option V :=
+  match c.foldl (constStep res globals) (some []) with
   | some [v] => some v
   | _ => none
 
@@ -58,73 +60,80 @@ def memOfTy (t : MemTyM) : Mem :=
 def tabOfTy (t : TableTyM) : Tab :=
   ⟨List.replicate t.min (if t.elem = "externref" then .xref none else .fref none), t.max, t.table64, t.elem = "externref"⟩
 
-def elemItems (FT : List Nat) (globals : List V) (e : ElemM) : Option (List V) :=
+def elemItems (res : Nat → Option Nat) (globals : List V) (e : ElemM) : Option (List V) :=
   match e.items with
-  | .funcs fs => fs.mapM fun f => (FT[f]?).map fun u => .fref (some u)
-  | .exprs _ es => es.mapM (evalConst FT globals)
+  | .funcs fs => fs.mapM fun f => (res f).map fun u => .fref (some u)
+  | .exprs _ es => es.mapM (evalConst res globals)
+
+def initGlobals (res : Nat → Option Nat) (imp : List V) (gl : List (GlobalTyM × CExprM)) : Option (List V) :=
+  gl.foldl (fun (acc : Option (List V)) g =>
+    acc.bind fun gs => (evalConst res gs g.2).map fun v => gs ++ [v]) (some imp)
+
+/-- one element segment at instantiation: active ones are written into their table and dropped,
+    declared ones are dropped -/
+def elemStep (res : Nat → Option Nat) (acc : Except String Store) (p : ElemM × Nat) : Except String Store :=
+  match acc with
+  | .error e => .error e
+  | .ok st =>
+    match p.1.mode with
+    | .active t off =>
+      let ti := t.getD 0
+      (match evalConst res st.globals off, st.tabs[ti]?, st.elems[p.2]? with
+       | some o, some tb, some vs =>
+         if o.payload + vs.length > tb.elems.length then .error "out of bounds table access" else
+         let el := tb.elems.take o.payload ++ vs ++ tb.elems.drop (o.payload + vs.length)
+         .ok { st with tabs := st.tabs.set ti { tb with elems := el }, elems := st.elems.set p.2 [] }
+       | _, _, _ => .error "bad element segment")
+    | .declared => .ok { st with elems := st.elems.set p.2 [] }
+    | .passive => .ok st
+
+def dataStep (res : Nat → Option Nat) (acc : Except String Store) (p : DataM × Nat) : Except String Store :=
+  match acc with
+  | .error e => .error e
+  | .ok st =>
+    match p.1.mode with
+    | .active mi off =>
+      (match evalConst res st.globals off, st.mems[mi]?, st.datas[p.2]? with
+       | some o, some mm, some bytes =>
+         if o.payload + bytes.length > mm.size then .error "out of bounds memory access" else
+         .ok { st with mems := st.mems.set mi (mm.writeBytes o.payload bytes), datas := st.datas.set p.2 [] }
+       | _, _, _ => .error "bad data segment")
+    | .passive => .ok st
+
+def runStart (res : Nat → Option Nat) (inv : CallFn) (start : Option Nat) (st2 : Store) : Inst :=
+  match start with
+  | none => .ok st2
+  | some f =>
+    match res f with
+    | none => .fail "start: no such function"
+    | some u =>
+      match inv u [] st2 with
+      | .ok _ st3 => .ok st3
+      | .trap w _ => .fail ("start trapped: " ++ w)
+      | .oog => .fail "start: out of gas"
+      | .unsup w => .fail ("start: unsupported " ++ w)
 
 /-- instantiate against the canonical host: imported globals get a value derived from their name,
     imported tables and memories arrive at their minimum size, empty -/
-def instantiate (m : ModuleM) (FT : List Nat) (inv : CallFn) : Inst :=
+def instantiate (m : ModuleM) (res : Nat → Option Nat) (inv : CallFn) : Inst :=
   let impGlobals : List V := m.imports.filterMap fun i => match i.2.2 with
     | .global g => some (mkTy g.ty (strHash (i.1 ++ "." ++ i.2.1) % 1000))
     | _ => none
-  let globals? := m.globals.foldl (fun (acc : Option (List V)) g =>
-    acc.bind fun gs => (evalConst FT gs g.2).map fun v => gs ++ [v]) (some impGlobals)
-  match globals? with
+  match initGlobals res impGlobals m.globals with
   | none => .fail "unsupported constant expression"
   | some globals =>
     let tabs := (m.imports.filterMap fun i => match i.2.2 with | .table t => some (tabOfTy t) | _ => none) ++ m.tables.map tabOfTy
     let mems := (m.imports.filterMap fun i => match i.2.2 with | .mem t => some (memOfTy t) | _ => none) ++ m.mems.map memOfTy
-    match m.elems.mapM (elemItems FT globals) with
+    match m.elems.mapM (elemItems res globals) with
     | none => .fail "unsupported element expression"
     | some items =>
       let st0 : Store := ⟨globals, mems, tabs, m.datas.map (fun d => hexBytes d.bytes.toList), items, [], 0⟩
-      -- active element segments, in order
-      let stE := (m.elems.zipIdx).foldl (fun (acc : Except String Store) p =>
-        match acc with
-        | .error e => .error e
-        | .ok st =>
-          match p.1.mode with
-          | .active t off =>
-            let ti := t.getD 0
-            (match evalConst FT st.globals off, st.tabs[ti]?, st.elems[p.2]? with
-             | some o, some tb, some vs =>
-               if o.payload + vs.length > tb.elems.length then .error "out of bounds table access" else
-               let el := tb.elems.take o.payload ++ vs ++ tb.elems.drop (o.payload + vs.length)
-               .ok { st with tabs := st.tabs.set ti { tb with elems := el }, elems := st.elems.set p.2 [] }
-             | _, _, _ => .error "bad element segment")
-          | .declared => .ok { st with elems := st.elems.set p.2 [] }
-          | .passive => .ok st) (.ok st0)
-      match stE with
+      match (m.elems.zipIdx).foldl (elemStep res) (.ok st0) with
       | .error e => .fail e
       | .ok st1 =>
-        let stD := (m.datas.zipIdx).foldl (fun (acc : Except String Store) p =>
-          match acc with
-          | .error e => .error e
-          | .ok st =>
-            match p.1.mode with
-            | .active mi off =>
-              (match evalConst FT st.globals off, st.mems[mi]?, st.datas[p.2]? with
-               | some o, some mm, some bytes =>
-                 if o.payload + bytes.length > mm.size then .error "out of bounds memory access" else
-                 .ok { st with mems := st.mems.set mi (mm.writeBytes o.payload bytes), datas := st.datas.set p.2 [] }
-               | _, _, _ => .error "bad data segment")
-            | .passive => .ok st) (.ok st1)
-        match stD with
+        match (m.datas.zipIdx).foldl (dataStep res) (.ok st1) with
         | .error e => .fail e
-        | .ok st2 =>
-          match m.start with
-          | none => .ok st2
-          | some f =>
-            match FT[f]? with
-            | none => .fail "start: no such function"
-            | some u =>
-            match inv u [] st2 with
-            | .ok _ st3 => .ok st3
-            | .trap w _ => .fail ("start trapped: " ++ w)
-            | .oog => .fail "start: out of gas"
-            | .unsup w => .fail ("start: unsupported " ++ w)
+        | .ok st2 => runStart res inv m.start st2
 
 /-! ## the call script and the observation -/
 
@@ -166,35 +175,35 @@ def showState (m : ModuleM) (US : List Sig) (st : Store) : String :=
 
 /-- run the script: `rounds` passes over the exported functions in name order, arguments drawn from
     `seed`; state carries over from call to call; stop at the first out-of-gas / unsupported outcome -/
-def runCalls (FT : List Nat) (US : List Sig) (inv : CallFn) : List (String × Nat × Nat) → Store → List String → List String × Store
+def runCalls (res : Nat → Option Nat) (US : List Sig) (inv : CallFn) : List (String × Nat × Nat) → Store → List String → List String × Store
   | [], st, acc => (acc.reverse, st)
   | (name, f, sd) :: rest, st, acc =>
-    match (FT[f]?).bind fun u => (US[u]?).map fun sg => (u, sg) with
+    match (res f).bind fun u => (US[u]?).map fun sg => (u, sg) with
     | none => ((s!"{name}: no such function" :: acc).reverse, st)
     | some (u, sg) =>
       let args := sg.1.zipIdx.map fun p => argFor (sd + p.2 * 7919) p.1
       let hdr := name ++ "(" ++ join "," (args.map showV) ++ ")"
       match inv u args st with
-      | .ok rs st' => runCalls FT US inv rest st' ((hdr ++ "=>" ++ join "," (rs.map (showTabEntry US))) :: acc)
-      | .trap w st' => runCalls FT US inv rest st' ((hdr ++ "=>trap:" ++ w) :: acc)
+      | .ok rs st' => runCalls res US inv rest st' ((hdr ++ "=>" ++ join "," (rs.map (showTabEntry US))) :: acc)
+      | .trap w st' => runCalls res US inv rest st' ((hdr ++ "=>trap:" ++ w) :: acc)
       | .oog => (((hdr ++ "=>out-of-gas") :: acc).reverse, st)
       | .unsup w => (((hdr ++ "=>unsupported:" ++ w) :: acc).reverse, st)
 
-/-- the observation, given the function index ↦ uid table, the signatures by uid and the meaning of
-    a call (by uid) -/
-def observeWith (m : ModuleM) (FT : List Nat) (US : List Sig) (inv : CallFn) (seed rounds : Nat) : String :=
-  match instantiate m FT inv with
+/-- the observation, given the resolution of function indices to uids, the signatures by uid and
+    the meaning of a call (by uid) -/
+def observeWith (m : ModuleM) (res : Nat → Option Nat) (US : List Sig) (inv : CallFn) (seed rounds : Nat) : String :=
+  match instantiate m res inv with
   | .fail w => "instantiate: " ++ w
   | .ok st0 =>
     let exf := (m.exports.filter (·.2.1 = "f")).foldr insertStr []
     let script : List (String × Nat × Nat) := (List.range rounds).flatMap fun r =>
       exf.zipIdx.map fun p => (p.1.1, p.1.2.2, lcg (seed + r * 104729 + p.2 * 1299709))
-    let (lines, st) := runCalls FT US inv script st0 []
+    let (lines, st) := runCalls res US inv script st0 []
     "instantiate: ok; " ++ join "; " lines ++ "; trace: " ++ join " " st.trace.reverse ++ "; state: " ++ showState m US st
 
 def observe (m : ModuleM) (seed rounds gas : Nat) : String :=
   match mkEnv m with
   | none => "ill-formed"
-  | some E => observeWith m E.ftab E.usigs (invoke E gas) seed rounds
+  | some E => observeWith m E.resolve E.usigs (invoke E gas) seed rounds
 
 end Walrus.Sem
